@@ -120,6 +120,15 @@ Lemma par_map_ok : forall A B (f : A -> M B) l ys, fst (par_map f l) = Ok ys -> 
 Proof. intros A B f l ys H. rewrite par_map_fst in H. apply mapM_ok. exact H. Qed.
 
 (* ---------------------------------------------------------------- resolve *)
+Lemma st_list_ok : forall E st r x, fst (st_list E st r) = Ok x -> x = recovered E /\ quiet st METADIR (OpList, r).
+Proof.
+  intros E st r x H. unfold st_list, quiet in *. destruct (st METADIR) as [| b|s b] eqn:Hc; simpl in H.
+  - inversion H. split; [reflexivity|intros; discriminate].
+  - inversion H. split; [reflexivity|intros; discriminate].
+  - destruct (site_eqb (OpList, r) s) eqn:Hs; simpl in H; [discriminate|]. inversion H. split; [reflexivity|].
+    intros s' b' Heq. inversion Heq; subst. intro Hx; subst. rewrite site_eqb_refl in Hs. discriminate.
+Qed.
+
 Lemma resolve_ok : forall E st r x, fst (resolve E st r) = Ok x ->
   x = spec_meta E st
   /\ (forall mk, resolved E st = Some mk ->
@@ -139,8 +148,8 @@ Proof.
   { unfold resolved. destruct (hinted E st) as [mk|] eqn:Hhint.
     - apply bind_ok in Htg. destruct Htg as [ex2 [Hex2 Htg]]. apply st_exists_ok in Hex2. destruct Hex2 as [Hex2 Hq].
       rewrite <- Hex2. split; [|intros mk' Heq; inversion Heq; subst; exact Hq].
-      destruct ex2; simpl in Htg; inversion Htg; reflexivity.
-    - simpl in Htg. inversion Htg. split; [reflexivity|intros; discriminate]. }
+      destruct ex2; [simpl in Htg; inversion Htg; reflexivity|]. apply st_list_ok in Htg. apply Htg.
+    - apply st_list_ok in Htg. split; [apply Htg|intros; discriminate]. }
   destruct Ht as [-> Hq2].
   assert (Hmain : forall mk, resolved E st = Some mk ->
             quiet st mk (OpRead, r) /\ exists b md, cur_bytes st mk = Some b /\ parse_meta E b = Some md /\ x = Some md).
@@ -762,6 +771,14 @@ Proof.
     [apply local_get|]. intro b. apply local_const.
 Qed.
 
+Lemma local_list : forall E r, local (fun st => st_list E st r).
+Proof.
+  intros E r st st' H. assert (He : st' METADIR = st METADIR).
+  { apply H. unfold st_list. destruct (st METADIR) as [| |s b]; [left; reflexivity|left; reflexivity|].
+    destruct (site_eqb (OpList, r) s); left; reflexivity. }
+  unfold st_list. rewrite He. reflexivity.
+Qed.
+
 Lemma local_resolve : forall E r, local (fun st => resolve E st r).
 Proof.
   intros E r. unfold resolve.
@@ -770,8 +787,8 @@ Proof.
        hinted <- (if ex then b <- st_get st HINT (OpRead, r) ;; ret (parse_hint E b) else ret None) ;;
        target <- match hinted with
                  | Some mk => ex2 <- st_exists st mk (OpExists, r) ;;
-                              if ex2 then ret (Some mk) else (Ok (recovered E), [(METADIR, (OpList, r))])
-                 | None => (Ok (recovered E), [(METADIR, (OpList, r))])
+                              if ex2 then ret (Some mk) else st_list E st r
+                 | None => st_list E st r
                  end ;;
        match target with
        | None => ret None
@@ -783,8 +800,8 @@ Proof.
     (fun hinted st =>
        target <- match hinted with
                  | Some mk => ex2 <- st_exists st mk (OpExists, r) ;;
-                              if ex2 then ret (Some mk) else (Ok (recovered E), [(METADIR, (OpList, r))])
-                 | None => (Ok (recovered E), [(METADIR, (OpList, r))])
+                              if ex2 then ret (Some mk) else st_list E st r
+                 | None => st_list E st r
                  end ;;
        match target with
        | None => ret None
@@ -797,18 +814,18 @@ Proof.
   - intro hn.
     apply (local_bind _ _ (fun st => match hn with
                  | Some mk => ex2 <- st_exists st mk (OpExists, r) ;;
-                              if ex2 then ret (Some mk) else (Ok (recovered E), [(METADIR, (OpList, r))])
-                 | None => (Ok (recovered E), [(METADIR, (OpList, r))])
+                              if ex2 then ret (Some mk) else st_list E st r
+                 | None => st_list E st r
                  end)
        (fun target st => match target with
        | None => ret None
        | Some mk => b <- st_get st mk (OpRead, r) ;;
                     match parse_meta E b with Some md => ret (Some md) | None => fail EParse end
        end)).
-    + destruct hn as [mk|]; [|apply local_const].
+    + destruct hn as [mk|]; [|apply local_list].
       apply (local_bind _ _ (fun st => st_exists st mk (OpExists, r))
-               (fun ex2 _ => if ex2 then ret (Some mk) else (Ok (recovered E), [(METADIR, (OpList, r))]))); [apply local_exists|].
-      intro ex2. apply local_const.
+               (fun ex2 st => if ex2 then ret (Some mk) else st_list E st r)); [apply local_exists|].
+      intros [|]; [apply local_const|apply local_list].
     + intros [mk|]; [|apply local_const].
       apply (local_bind _ _ (fun st => st_get st mk (OpRead, r))
                (fun b _ => match parse_meta E b with Some md => ret (Some md) | None => fail EParse end)); [apply local_get|].
@@ -943,14 +960,16 @@ Proof.
       rewrite (bind_fst_ok _ _ _ _ _ (get_noflaky st HINT (OpRead, r) hb Hn Hhb)). reflexivity.
     - apply present_false in Hph. unfold cur_bytes. rewrite Hph. reflexivity. }
   rewrite (bind_fst_ok _ _ _ _ _ Hh).
+  assert (Hl : fst (st_list E st r) = Ok (recovered E)).
+  { unfold st_list. destruct (st METADIR) as [| |s0 b0] eqn:Hc; try reflexivity. exfalso. exact (Hn METADIR s0 b0 Hc). }
   assert (Ht : fst (match hinted E st with
                     | Some mk0 => ex2 <- st_exists st mk0 (OpExists, r) ;;
-                                  if ex2 then ret (Some mk0) else (Ok (recovered E), [(METADIR, (OpList, r))])
-                    | None => (Ok (recovered E), [(METADIR, (OpList, r))])
+                                  if ex2 then ret (Some mk0) else st_list E st r
+                    | None => st_list E st r
                     end) = Ok (Some mk)).
-  { unfold resolved in Hres. destruct (hinted E st) as [mk0|]; [|simpl; rewrite Hres; reflexivity].
+  { unfold resolved in Hres. destruct (hinted E st) as [mk0|]; [|rewrite Hl, Hres; reflexivity].
     rewrite (bind_fst_ok _ _ _ _ _ (exists_noflaky st mk0 (OpExists, r) Hn)).
-    destruct (present st mk0); simpl; rewrite Hres; reflexivity. }
+    destruct (present st mk0); [simpl; rewrite Hres; reflexivity|rewrite Hl, Hres; reflexivity]. }
   rewrite (bind_fst_ok _ _ _ _ _ Ht).
   rewrite (bind_fst_ok _ _ _ _ _ (get_noflaky st mk (OpRead, r) b Hn Hb)). rewrite Hp. reflexivity.
 Qed.
@@ -1232,4 +1251,34 @@ Proof.
   destruct (is_generator a); [|reflexivity].
   destruct (fst (get_all_data_files (with_list_decoder E dec') st)) as [dfs|e']; [|reflexivity].
   rewrite !yielded_of_decoder. reflexivity.
+Qed.
+
+(* ================================================================ C14_recovery_listing_fails_closed *)
+Lemma resolve_listing_fails : forall E st r b,
+  (forall s b', st HINT <> Flaky s b') ->
+  (hinted E st = None \/ exists mk, hinted E st = Some mk /\ st mk = Absent) ->
+  st METADIR = Flaky (OpList, r) b ->
+  fst (resolve E st r) = Err EIO.
+Proof.
+  intros E st r b Hh Hhint Hl. unfold resolve.
+  assert (Hlist : fst (st_list E st r) = Err EIO) by (unfold st_list; rewrite Hl, site_eqb_refl; reflexivity).
+  assert (Hex : fst (st_exists st HINT (OpExists, r)) = Ok (present st HINT)).
+  { unfold st_exists, present. destruct (st HINT) as [| |s b'] eqn:Hc; try reflexivity. exfalso. exact (Hh s b' eq_refl). }
+  rewrite (bind_fst_ok _ _ _ _ _ Hex).
+  assert (Hhn : fst (if present st HINT then b0 <- st_get st HINT (OpRead, r) ;; ret (parse_hint E b0) else ret None) = Ok (hinted E st)).
+  { unfold hinted, present, cur_bytes, st_get. destruct (st HINT) as [| hb|s b'] eqn:Hc; try reflexivity. exfalso. exact (Hh s b' eq_refl). }
+  rewrite (bind_fst_ok _ _ _ _ _ Hhn).
+  apply bind_fst_err. destruct Hhint as [-> | [mk [-> Habs]]]; [exact Hlist|].
+  assert (Hex2 : fst (st_exists st mk (OpExists, r)) = Ok false) by (unfold st_exists; rewrite Habs; reflexivity).
+  rewrite (bind_fst_ok _ _ _ _ _ Hex2). exact Hlist.
+Qed.
+
+Theorem recovery_listing_fails_closed : forall E st a o b,
+  (forall s b', st HINT <> Flaky s b') ->
+  (hinted E st = None \/ exists mk, hinted E st = Some mk /\ st mk = Absent) ->
+  st METADIR = Flaky (OpList, 0%nat) b ->
+  out (read_current E st a o) = Err EIO.
+Proof.
+  intros E st a o b Hh Hhint Hl. unfold read_current. simpl. unfold run. apply bind_fst_err.
+  unfold get_all_data_files. apply bind_fst_err. eapply resolve_listing_fails; eauto.
 Qed.
